@@ -124,3 +124,23 @@ Definition sl_append_in (s : gslice) (p : bytes) : option gslice :=
    range panic, or with panic(v); the state is the one it leaves behind *)
 Inductive bres (R S : Type) : Type := BOk (r : R) (st : S) | BRange (st : S) | BPanic (p : bytes) (st : S).
 Arguments BOk {R S} r st. Arguments BRange {R S} st. Arguments BPanic {R S} p st.
+
+(* ---- writes to maps (association lists; look-ups take the first binding) ----
+   m[k] = v: the binding of k is replaced if there is one, otherwise (k, v) is added at the end *)
+Fixpoint mapZ_replace {V} (m : list (Z * V)) (k : Z) (v : V) : list (Z * V) :=
+  match m with
+  | [] => []
+  | (k', v') :: t => if k' =? k then (k', v) :: t else (k', v') :: mapZ_replace t k v
+  end.
+Definition mapZ_set {V} (m : list (Z * V)) (k : Z) (v : V) : list (Z * V) :=
+  match lookupZ m k with None => m ++ [(k, v)] | Some _ => mapZ_replace m k v end.
+Fixpoint mapB_replace {V} (m : list (bytes * V)) (k : bytes) (v : V) : list (bytes * V) :=
+  match m with
+  | [] => []
+  | (k', v') :: t => if bytes_eqb k' k then (k', v) :: t else (k', v') :: mapB_replace t k v
+  end.
+Definition mapB_set {V} (m : list (bytes * V)) (k : bytes) (v : V) : list (bytes * V) :=
+  match lookupB m k with None => m ++ [(k, v)] | Some _ => mapB_replace m k v end.
+(* m[i][k] = v on a map of maps: Go panics when the row m[i] is missing (assignment to entry in nil map) *)
+Definition map2_set {V} (m : list (Z * list (Z * V))) (i k : Z) (v : V) : option (list (Z * list (Z * V))) :=
+  match lookupZ m i with None => None | Some row => Some (mapZ_replace m i (mapZ_set row k v)) end.
